@@ -41,6 +41,9 @@ def _case(draw):
         spec['widths'] = [w] * D
     else:
         spec['negatives'] = draw(st.booleans())
+        if not spec['negatives'] and draw(st.booleans()):
+            # only tiny negative events: the documented W would be negative and is floored at 0
+            spec['specials'] = [[0, draw(st.integers(0, D - 1)), -draw(st.sampled_from([1e-3, 1e-6, 0.01, 0.5]))]]
     convert = draw(st.sampled_from([None, None, 'rfi', 'rfi', 'mef']))
     form = draw(st.sampled_from(['all', 'name', 'pos', 'neg', 'list', 'list1']))
     if form in ('name', 'pos', 'neg'):
